@@ -1140,6 +1140,93 @@ def rule_r7(chk, p, t):
                 r.violation(cons, "planned-provenance", f"planned is `{unparse(v)}`, expected config.planned", fc.loc(v))
 
 
+QUEUES = {
+    "propagate_event_queue": ("resonaate.agents.agent_base.Agent", "appendPropagateEvent", "prunePropagateEvents"),
+    "sensor_time_bias_event_queue": ("resonaate.agents.sensing_agent.SensingAgent", "appendTimeBiasEvent", "pruneTimeBiasEvents"),
+}
+
+
+def rule_r9(chk, p, t):
+    r = chk.rule(
+        "C01.R9",
+        "event queues are per agent and only their prune removes from them",
+        4,
+        "each event queue is a fresh list created in the owning class's __init__ (never a class-level list shared by "
+        "all agents: an event appended for one sensor would be active for every sensor); entries are added only by the "
+        "queue's append method and removed only by its prune method, whose retention predicate R5 decides - any other "
+        "rebinding, clearing or removal can drop an event that was delivered but has not fired yet (the Julian-date "
+        "window and the integrator's scenario time differ by rounding, so an event delivered in step k may fire in k+1)",
+        "-",
+    )
+    for fld, (cq, app, prn) in QUEUES.items():
+        cls = p.cls(cq)
+        cons = f"{cls.qualname}.{fld}"
+        # (a) per-instance creation
+        init = cls.methods.get("__init__")
+        fresh = [n for n in walk_no_nested(init.node) if isinstance(n, (ast.Assign, ast.AnnAssign)) and unparse(n.targets[0] if isinstance(n, ast.Assign) else n.target) == f"self.{fld}"] if init is not None else []
+        klass = [c for c in [cls] + p.mro(cls)[1:] + p.subclasses(cls) for st in c.node.body if isinstance(st, (ast.Assign, ast.AnnAssign)) and st.value is not None and unparse(st.targets[0] if isinstance(st, ast.Assign) else st.target) == fld]
+        if klass:
+            r.violation(cons + ":per-instance", f"class-level-queue:{klass[0].name}", f"`{fld}` is given a value in the body of class {klass[0].name}: one list object shared by every agent, so `{app}` on one agent makes the event active for all of them (until each first rebinds it) - events must act only on the agent they name", klass[0].loc())
+        elif len(fresh) == 1 and unparse(fresh[0].value) in ("[]", "list()") and not _in_branch(init.node, fresh[0]):
+            r.ok(cons + ":per-instance", "a fresh list per agent, created unconditionally in __init__", init.loc(fresh[0]))
+        else:
+            r.violation(cons + ":per-instance", "queue-not-created-per-instance", f"`self.{fld}` is not created as a fresh empty list, unconditionally, in {cls.name}.__init__", init.loc() if init else cls.loc())
+        # (b) who adds / removes
+        bad = []
+        n_sites = 0
+        for fi in p.all_functions(include_nested=True):
+            for n in ast.walk(fi.node):
+                tgt = None
+                kind = None
+                if isinstance(n, (ast.Assign, ast.AnnAssign, ast.AugAssign)):
+                    for x in n.targets if isinstance(n, ast.Assign) else [n.target]:
+                        b = x
+                        while isinstance(b, ast.Subscript):
+                            b = b.value
+                        if isinstance(b, ast.Attribute) and b.attr == fld:
+                            tgt, kind = n, "rebind" if b is x else "item-store"
+                elif isinstance(n, ast.Delete):
+                    for x in n.targets:
+                        b = x
+                        while isinstance(b, ast.Subscript):
+                            b = b.value
+                        if isinstance(b, ast.Attribute) and b.attr == fld:
+                            tgt, kind = n, "delete"
+                elif isinstance(n, ast.Call) and isinstance(n.func, ast.Attribute) and isinstance(n.func.value, ast.Attribute) and n.func.value.attr == fld and n.func.attr in ("append", "extend", "insert", "remove", "pop", "clear", "sort", "reverse"):
+                    tgt, kind = n, n.func.attr
+                elif isinstance(n, ast.Call) and call_name(n) == "setattr" and len(n.args) >= 2 and isinstance(n.args[1], ast.Constant) and n.args[1].value == fld:
+                    tgt, kind = n, "setattr"
+                if tgt is None:
+                    continue
+                n_sites += 1
+                owner = fi.cls is not None and (fi.cls is cls or cls in p.mro(fi.cls))
+                if owner and fi.name == "__init__" and kind == "rebind":
+                    continue
+                if owner and fi.name == app and kind == "append":
+                    continue
+                if owner and fi.name == prn and kind in ("rebind", "remove", "pop", "delete"):
+                    continue
+                bad.append((fi, tgt, kind))
+        for fi, tgt, kind in bad:
+            r.violation(f"{fi.qualname}:{fld}:{kind}", f"queue-writer:{fi.name}:{kind}", f"`{unparse(tgt)[:80]}` in {fi.qualname} changes `{fld}` ({kind}); only {cls.name}.{app} may add to it and only {cls.name}.{prn} may remove from it: an event can be lost before it fires or act twice", fi.loc(tgt))
+        if n_sites < 3:
+            r.error(cons + ":writers", f"only {n_sites} writer sites of {fld} found (3 confirmed by hand: __init__, {app}, {prn})")
+        elif not bad:
+            r.ok(cons + ":writers", f"{n_sites} writer sites: __init__, {app}, {prn} only", cls.loc())
+
+
+def _in_branch(fn_node, stmt):
+    from rsa.util import parents_map
+
+    pm = parents_map(fn_node)
+    cur = stmt
+    while cur in pm:
+        cur = pm[cur]
+        if isinstance(cur, (ast.If, ast.For, ast.While, ast.Try, ast.With)):
+            return True
+    return False
+
+
 def run(chk, p, t):
     chk.explanation = (
         "Static decision of structural necessary conditions of C01 on the current source: (R1) window tiling "
@@ -1156,7 +1243,7 @@ def run(chk, p, t):
         "agent time equals the clock time before the tick when prunePropagateEvents runs (PropagateRegistration.generateSubmission)",
         "call resolution by the repo's annotations and class-hierarchy analysis",
     ]
-    for fn in (rule_r1, rule_r2, rule_r3, rule_r4, rule_r5, rule_r6, rule_r7, rule_r8):
+    for fn in (rule_r1, rule_r2, rule_r3, rule_r4, rule_r5, rule_r6, rule_r7, rule_r8, rule_r9):
         rid = "C01.R" + fn.__name__[-1]
         if not chk.wants(rid):
             continue
